@@ -1,18 +1,18 @@
 CONSTANTS
-  Areas <- OnlyV6
+  Areas <- OnlyV4
   Wide4 <- MCEmpty
   Sweep4 <- MCEmpty
-  Base4 <- MCEmpty
-  Net4 <- MCEmpty
-  Flip4 <- MCEmpty
-  Cidr4B <- MCEmpty
+  Base4 <- MCBase4
+  Net4 <- MCBase4
+  Flip4 <- MCFlip4T
+  Cidr4B <- MCBase4
   Sweep6 <- MCEmpty
   Base6 <- MCEmpty
   Net6 <- MCEmpty
   Flip6 <- MCEmpty
-  Cidr6B <- MCBase6
+  Cidr6B <- MCEmpty
   Rich6 <- MCEmpty
-  Macs <- MCMicroMac
+  Macs <- MCEmpty
   RichMacs <- MCEmpty
   Dpids <- MCEmpty
   DpidsRT <- MCEmpty
